@@ -795,6 +795,15 @@ class Interp:
       k = sp.Symbol(f'{target.elts[0].id}{tag}', real=True)
       st.env[target.elts[0].id] = k
       st.env[target.elts[1].id] = self.dict_load(it.d, k, st)
+    elif isinstance(target, (ast.Tuple, ast.List)) and len(target.elts) == 2 and all(isinstance(t, ast.Name) for t in target.elts) and \
+        isinstance(s.iter, ast.Call) and isinstance(s.iter.func, ast.Attribute) and s.iter.func.attr == 'items' and not s.iter.args and not s.iter.keywords and \
+        not isinstance(self.ev(s.iter.func.value, st), (DictObj, Tup, list, tuple)):
+      # `for k, v in m.items()` over an opaque mapping: v is m[k]
+      m_ = self.ev(s.iter.func.value, st)
+      nm = f'{target.elts[0].id}{tag}'
+      k = sp.Symbol(nm, **self.typed.get(nm, dict(real=True)))
+      st.env[target.elts[0].id] = k
+      st.env[target.elts[1].id] = opq(sp.Symbol('getitem'), as_sym(m_), k)
     elif isinstance(target, (ast.Tuple, ast.List)):
       base = sp.Symbol(f'item{tag}', real=True)
       vals = []
@@ -812,8 +821,10 @@ class Interp:
   def store(self, t, v, st, node):
     if isinstance(t, ast.Name):
       st.env[t.id] = v
+    elif isinstance(t, ast.Starred):
+      self.store(t.value, opq(sp.Symbol('starred'), as_sym(v)), st, node)
     elif isinstance(t, (ast.Tuple, ast.List)):
-      if isinstance(v, Tup) and len(v) == len(t.elts):
+      if isinstance(v, Tup) and len(v) == len(t.elts) and not any(isinstance(e_, ast.Starred) for e_ in t.elts):
         for ti, vi in zip(t.elts, v):
           self.store(ti, vi, st, node)
       else:
